@@ -1384,8 +1384,13 @@ class Shift(BuiltinFunctionT):
             args[0].cache_when_complex("to_shift") as (b1, arg),
             args[1].cache_when_complex("bits") as (b2, bits),
         ):
-            neg_bits = ["sub", 0, bits]
-            ret = ["if", ["slt", bits, 0], GSHR(neg_bits, arg), shl(bits, arg)]
+            if args[1].typ.is_signed:
+                neg_bits = ["sub", 0, bits]
+                ret = ["if", ["slt", bits, 0], GSHR(neg_bits, arg), shl(bits, arg)]
+            else:
+                # an unsigned shift amount is never negative (a uint256 amount
+                # >= 2**255 must not be read as a right shift)
+                ret = shl(bits, arg)
             return b1.resolve(b2.resolve(IRnode.from_list(ret, typ=argty)))
 
 
